@@ -45,7 +45,7 @@ def merge(bauth, bpath, rpath):
 	return bpath[:bpath.rfind('/') + 1] + rpath
 
 
-def resolve(base, ref):
+def resolve(base, ref, remove_dot_segments=remove_dot_segments):
 	bs, ba, bp, bq, bf = split(base)
 	rs, ra, rp, rq, rf = split(ref)
 	if rs is not None:
